@@ -53,6 +53,19 @@ Theorem C01_only_verified : forall H known a known', admit_identity H known a = 
 Proof. exact admit_only_verified. Qed.
 Print Assumptions C01_rejects_no_trace. Print Assumptions C01_only_verified.
 
+(* What the router believes about address -> key bindings: after any number of admissions and
+   announcement hop chains (each parsed outermost first, stopping at the first rejection), every
+   stored address is bound to an identity that carries that very address and verifies; a
+   rejection changes nothing and an existing binding is never replaced. *)
+Theorem C01_bindings_sound : forall H l st, store_sound H st -> store_sound H (fst (admit_chain H st l)).
+Proof. exact admit_chain_sound. Qed.
+Theorem C01_binding_rejected_unchanged : forall H st a c, verify_address H a = Err c -> admit_binding H st a = Err c.
+Proof. exact admit_binding_rejects. Qed.
+Theorem C01_binding_never_replaced : forall H st a st' ip b, admit_binding H st a = Ok st' ->
+  lookup_binding st ip = Some b -> lookup_binding st' ip = Some b.
+Proof. exact admit_binding_keeps. Qed.
+Print Assumptions C01_bindings_sound. Print Assumptions C01_binding_rejected_unchanged. Print Assumptions C01_binding_never_replaced.
+
 (* Every identity the generator returns passes the check, lies in a requested prefix and
    outside the internal and the ignored ranges. *)
 Theorem C01_generator_sound : forall H h hname key acc ign fuel easing a,
